@@ -27,6 +27,9 @@ for name in sorted(os.listdir(sd)):
             rows.append((name, pid, r.returncode, len(viol), viol[0] if viol else ''))
             print(f'{name:28s} {pid} exit={r.returncode} violations={len(viol)} {"CAUGHT" if r.returncode == 1 and viol else "MISSED"}'
                   f'{" (no-failing-input-found)" if viol and all("no-failing-input-found" in v for v in viol) else ""}', flush=True)
-            shutil.rmtree(os.path.join(HERE, '.run', pid + '-seed-' + name), ignore_errors=True)
+            for d in os.listdir(os.path.join(HERE, '.run')):
+                if d.startswith(pid + '-seed-' + name):
+                    p_ = os.path.join(HERE, '.run', d)
+                    shutil.rmtree(p_, ignore_errors=True) if os.path.isdir(p_) else os.remove(p_)
     finally:
         subprocess.run(['git', '-C', '/repo', 'worktree', 'remove', '--force', scratch])
